@@ -153,6 +153,15 @@ void harness(void)
 	ASSUME(reader != NULL);
 	h = lha_reader_next_file(reader);
 	CHECK(h == &hdr, "first member is presented");
+#ifdef PRE_OP
+	/* an earlier operation on the same member (a check, or a partial read) must not lend its result to this one */
+	{
+		INPUT(u8, pre);
+		if (pre & 1) (void) lha_reader_check(reader, NULL, NULL);
+		else { u8 one[1]; (void) lha_reader_read(reader, one, 1); }
+		wr_calls = 0; wr_bytes = 0; wr_failed = 0;
+	}
+#endif
 	if (mode & 1) verdict = lha_reader_extract(reader, "out", NULL, NULL);
 	else verdict = lha_reader_check(reader, NULL, NULL);
 
